@@ -17,6 +17,9 @@ ENV = dict(os.environ, GOFLAGS='-mod=mod', GOPROXY='off', GOSUMDB='off', GOTOOLC
 SEEDS = os.environ.get('SEEDS_DIR', '/tmp/seed-out')
 OFFSET = int(os.environ.get('ID_OFFSET', '0'))
 OUT = '/verif/seeded'
+# private copy of the checker so that rebuilding /verif/bin during a long
+# confirmation run does not change the verdicts half-way
+BIN = f'/tmp/clusterlint-confirm-{os.getpid()}'
 NOBUILD = ('cluster.go', 'allocate.go', 'rpc_api.go', 'util.go', 'cluster_config.go', 'api/rest/', 'cmdutils/', 'cmd/ipfs-cluster-service', 'cmd/ipfs-cluster-follow')
 
 
@@ -102,7 +105,7 @@ def confirm(prop, k):
             meta['confirmed'] = False
             meta['note'] = 'touches a package that does not build with this toolchain (root / api/rest / cmdutils): compile and tests not run here; confirmed by type-checking (clusterlint loader) and by reading'
         # static verdict
-        rc, o = run(f'/verif/bin/clusterlint -repo {wt} -property all -no-evidence -no-cache', '/verif', timeout=900)
+        rc, o = run(f'{BIN} -repo {wt} -property all -no-evidence -no-cache', '/verif', timeout=900)
         meta['type_checks'] = 'BROKEN' not in o
         det = sorted(set(re.findall(r'^(?:VIOLATED|UNDECIDED) (\S+)', o, re.M)))
         props = sorted(set(re.findall(r'^VIOLATION property=(C\d+)', o, re.M)))
@@ -126,6 +129,8 @@ def extract_needs(readme):
 
 def main():
     only = sys.argv[1:]
+    shutil.copy('/verif/bin/clusterlint', BIN)
+    os.chmod(BIN, 0o755)
     jobs = []
     for prop in sorted(os.listdir(SEEDS)):
         if not re.fullmatch(r'C\d\d', prop):
@@ -149,6 +154,7 @@ def main():
                 shutil.copy(f'{SEEDS}/{prop}/{k}/README.md', f'{d}/README.md')
             json.dump(meta, open(f'{d}/meta.json', 'w'), indent=1)
             print(sid, 'confirmed' if meta.get('confirmed') else 'NOT-CONFIRMED', meta.get('clusterlint_detects'), meta.get('error', ''), flush=True)
+    os.remove(BIN)
 
 
 if __name__ == '__main__':
